@@ -37,8 +37,29 @@ int fi2(int token, int b) { body(token); g_argEcho[token] = b; return token * 10
 String fs2(int token, const String& s) { body(token); g_argEcho[token] = (long)s.length(); return String("r:") + s; }
 struct Member { int base; int mi(int token) { body(token); g_argEcho[token] = base; return base + token; } void mv(int token) { body(token); g_argEcho[token] = base; } };
 
+// functions for every start() overload (free functions with 1..5 parameters, member functions with 0..4): the first parameter is the
+// token, the others are token-dependent values whose weighted sum is echoed
+void gv2(int token, int a2) { body(token); g_argEcho[token] = 2L * a2; }
+int gi2(int token, int a2) { body(token); g_argEcho[token] = 2L * a2; return token * 1000 + (int)((2L * a2) % 997); }
+void gv3(int token, int a2, int a3) { body(token); g_argEcho[token] = 2L * a2 + 3L * a3; }
+int gi3(int token, int a2, int a3) { body(token); g_argEcho[token] = 2L * a2 + 3L * a3; return token * 1000 + (int)((2L * a2 + 3L * a3) % 997); }
+void gv4(int token, int a2, int a3, int a4) { body(token); g_argEcho[token] = 2L * a2 + 3L * a3 + 4L * a4; }
+int gi4(int token, int a2, int a3, int a4) { body(token); g_argEcho[token] = 2L * a2 + 3L * a3 + 4L * a4; return token * 1000 + (int)((2L * a2 + 3L * a3 + 4L * a4) % 997); }
+void gv5(int token, int a2, int a3, int a4, int a5) { body(token); g_argEcho[token] = 2L * a2 + 3L * a3 + 4L * a4 + 5L * a5; }
+int gi5(int token, int a2, int a3, int a4, int a5) { body(token); g_argEcho[token] = 2L * a2 + 3L * a3 + 4L * a4 + 5L * a5; return token * 1000 + (int)((2L * a2 + 3L * a3 + 4L * a4 + 5L * a5) % 997); }
+int gi1(int token) { body(token); g_argEcho[token] = 5; return token * 1000 + 5; }
+int g_zeroTokI[MAXC];
+int gi0_c0() { body(g_zeroTokI[0]); return g_zeroTokI[0] * 1000 + 1; } int gi0_c1() { body(g_zeroTokI[1]); return g_zeroTokI[1] * 1000 + 1; } int gi0_c2() { body(g_zeroTokI[2]); return g_zeroTokI[2] * 1000 + 1; }
+struct MemberN { int base; int tok0v, tok0i;   // (one token slot per future: the calls of two futures may overlap)
+  void v0() { body(tok0v); g_argEcho[tok0v] = base; } int i0() { body(tok0i); g_argEcho[tok0i] = base; return base + tok0i; }
+  void v2(int token, int a2) { body(token); g_argEcho[token] = base + 2L * a2; } int i2(int token, int a2) { body(token); g_argEcho[token] = base + 2L * a2; return base + token + (int)((2L * a2) % 997); }
+  void v3(int token, int a2, int a3) { body(token); g_argEcho[token] = base + 2L * a2 + 3L * a3; } int i3(int token, int a2, int a3) { body(token); g_argEcho[token] = base + 2L * a2 + 3L * a3; return base + token + (int)((2L * a2 + 3L * a3) % 997); }
+  void v4(int token, int a2, int a3, int a4) { body(token); g_argEcho[token] = base + 2L * a2 + 3L * a3 + 4L * a4; } int i4(int token, int a2, int a3, int a4) { body(token); g_argEcho[token] = base + 2L * a2 + 3L * a3 + 4L * a4; return base + token + (int)((2L * a2 + 3L * a3 + 4L * a4) % 997); }
+};
+inline long wsumOf(long arg, int n) { long r = 0; for (int i = 2; i <= n; ++i) r += (long)i * (long)(int)(arg + i); return r; }   // weighted sum of a2..an with a_i = arg + i
+
 struct Client {
-  int id;
+  int id; MemberN memN;
   // futures live in raw storage and are constructed / destroyed explicitly, the storage is never reused within a run
   Future<void>* fv; Future<int>* fi; Future<String>* fs;
   int tok[NF]; bool started[NF]; bool abortReq[NF]; long expect[NF]; std::string expectS; long expArg[NF];
@@ -74,7 +95,20 @@ void runClient(Client& c) {
         if (c.started[f]) { if (f == 0) c.fv->join(); else if (f == 1) c.fi->join(); else c.fs->join(); checkDone(c, f, "join()"); if (op->a[3] % 7 == 0) ctx_restartWithoutJoin = true; }
         c.abortReq[f] = false;
         if (f == 0) {
-          int variant = (int)((arg / 3) % 4);
+          int variant = (int)((arg / 3) % 12);
+          if (variant >= 4) {   // the remaining overloads
+            c.tok[0] = t; c.started[0] = true; int x = (int)arg;
+            switch (variant) {
+              case 4: c.expArg[0] = wsumOf(arg, 2); c.fv->start(&gv2, t, x + 2); break;
+              case 5: c.expArg[0] = wsumOf(arg, 3); c.fv->start(&gv3, t, x + 2, x + 3); break;
+              case 6: c.expArg[0] = wsumOf(arg, 4); c.fv->start(&gv4, t, x + 2, x + 3, x + 4); break;
+              case 7: c.expArg[0] = wsumOf(arg, 5); c.fv->start(&gv5, t, x + 2, x + 3, x + 4, x + 5); break;
+              case 8: c.memN.tok0v = t; c.expArg[0] = c.memN.base; g_argEcho[t] = 0; c.fv->start(c.memN, &MemberN::v0); break;
+              case 9: c.expArg[0] = c.memN.base + wsumOf(arg, 2); c.fv->start(c.memN, &MemberN::v2, t, x + 2); break;
+              case 10: c.expArg[0] = c.memN.base + wsumOf(arg, 3); c.fv->start(c.memN, &MemberN::v3, t, x + 2, x + 3); break;
+              default: c.expArg[0] = c.memN.base + wsumOf(arg, 4); c.fv->start(c.memN, &MemberN::v4, t, x + 2, x + 3, x + 4); break;
+            }
+          } else
           if (variant == 0) { // zero-argument function: the token travels through a per-client variable, so wait for the previous call first
             g_zeroTok[c.id] = t; c.expArg[0] = 0; g_argEcho[t] = 0;
             c.tok[0] = t; c.started[0] = true;
@@ -87,9 +121,23 @@ void runClient(Client& c) {
             else c.fv->start(c.mem, &Member::mv, t);
           }
         } else if (f == 1) {
-          bool member = (arg / 3) % 2 == 1;
+          int iv = (int)((arg / 3) % 12); bool member = iv == 1; int x = (int)arg;
           c.tok[1] = t; c.started[1] = true;
-          if (member) { c.expect[1] = c.mem.base + t; c.expArg[1] = c.mem.base; c.fi->start(c.mem, &Member::mi, t); }
+          if (iv >= 2) {
+            long w;
+            switch (iv) {
+              case 2: g_zeroTokI[c.id] = t; g_argEcho[t] = 0; c.expArg[1] = 0; c.expect[1] = (long)t * 1000 + 1; c.fi->start(c.id == 0 ? &gi0_c0 : c.id == 1 ? &gi0_c1 : &gi0_c2); break;
+              case 3: c.expArg[1] = 5; c.expect[1] = (long)t * 1000 + 5; c.fi->start(&gi1, t); break;
+              case 4: w = wsumOf(arg, 3); c.expArg[1] = w; c.expect[1] = (long)t * 1000 + (int)(w % 997); c.fi->start(&gi3, t, x + 2, x + 3); break;
+              case 5: w = wsumOf(arg, 4); c.expArg[1] = w; c.expect[1] = (long)t * 1000 + (int)(w % 997); c.fi->start(&gi4, t, x + 2, x + 3, x + 4); break;
+              case 6: w = wsumOf(arg, 5); c.expArg[1] = w; c.expect[1] = (long)t * 1000 + (int)(w % 997); c.fi->start(&gi5, t, x + 2, x + 3, x + 4, x + 5); break;
+              case 7: c.memN.tok0i = t; g_argEcho[t] = 0; c.expArg[1] = c.memN.base; c.expect[1] = c.memN.base + t; c.fi->start(c.memN, &MemberN::i0); break;
+              case 8: w = wsumOf(arg, 2); c.expArg[1] = c.memN.base + w; c.expect[1] = c.memN.base + t + (int)(w % 997); c.fi->start(c.memN, &MemberN::i2, t, x + 2); break;
+              case 9: w = wsumOf(arg, 3); c.expArg[1] = c.memN.base + w; c.expect[1] = c.memN.base + t + (int)(w % 997); c.fi->start(c.memN, &MemberN::i3, t, x + 2, x + 3); break;
+              case 10: w = wsumOf(arg, 4); c.expArg[1] = c.memN.base + w; c.expect[1] = c.memN.base + t + (int)(w % 997); c.fi->start(c.memN, &MemberN::i4, t, x + 2, x + 3, x + 4); break;
+              default: w = wsumOf(arg, 2); c.expArg[1] = w; c.expect[1] = (long)t * 1000 + (int)(w % 997); c.fi->start(&gi2, t, x + 2); break;
+            }
+          } else if (member) { c.expect[1] = c.mem.base + t; c.expArg[1] = c.mem.base; c.fi->start(c.mem, &Member::mi, t); }
           else { int b = (int)(arg % 97); c.expect[1] = (long)t * 1000 + b; c.expArg[1] = b; c.fi->start(&fi2, t, b); }
         } else {
           std::string s = "s" + std::to_string(arg % 50);
@@ -179,7 +227,7 @@ void pbt_run(const Case& cs, Ctx& ctx) {
 #endif
       std::vector<Client> cl((size_t)nc);
       for (int i = 0; i < nc; ++i) {
-        Client& c = cl[(size_t)i]; c.id = i; c.mem.base = 50 + i; c.prog = progs[(size_t)i];
+        Client& c = cl[(size_t)i]; c.id = i; c.mem.base = 50 + i; c.memN.base = 70 + i; c.memN.tok0v = c.memN.tok0i = 0; c.prog = progs[(size_t)i];
         c.fv = new (malloc(sizeof(Future<void>))) Future<void>; c.fi = new (malloc(sizeof(Future<int>))) Future<int>; c.fs = new (malloc(sizeof(Future<String>))) Future<String>;
         for (int f = 0; f < NF; ++f) { c.tok[f] = -1; c.started[f] = false; c.abortReq[f] = false; c.expect[f] = 0; c.expArg[f] = 0; }
       }
